@@ -105,8 +105,9 @@ static void crash_handler(int sig) {
 void __asan_on_error(void);
 void __asan_on_error(void) { write_tape_file(); }
 static void on_deadlock(void) { h_stuck("deadlock", "nothing runnable and no timed event pending"); }
+const char *(*h_stepcap_clause)(void);
 static void on_stepcap(void) {
-	if (sim_is_fair()) h_stuck("livelock", "step cap exhausted in the fair phase");
+	if (sim_is_fair()) h_stuck(h_stepcap_clause ? h_stepcap_clause() : "livelock", "step cap exhausted in the fair phase");
 	// during the fault phase step-cap exhaustion is not judged: continue fairly, fault-free
 	sim_set_fair();
 	sim_k.step_cap *= 2;
